@@ -273,3 +273,41 @@ def _c12_with_exhaustive():
 
 
 CHECKS["C12"] = _c12_with_exhaustive()
+
+
+def _c13_with_fuzzer():
+    base = CHECKS["C13"]
+    rc_workers = base["workers"]
+    def workers(tier, seed, work):
+        jobs = rc_workers(tier, seed, work)
+        T = 30 if tier == "quick" else 600
+        for i in range(4):
+            d = os.path.join(work, f"fuzz{i}"); corpus = os.path.join(d, "corpus"); art = os.path.join(d, "art")
+            os.makedirs(corpus, exist_ok=True); os.makedirs(art, exist_ok=True)
+            env = {"VERIF_STATS": os.path.join(d, "stats.json"), "VERIF_FAILDIR": d, "ASAN_OPTIONS": "detect_leaks=0"}
+            if i % 2 == 0:
+                env["VERIF_SEED_CORPUS"] = corpus
+            jobs.append(dict(argv=[os.path.join(BIN, "fuzz_names.asanexc"), f"-max_total_time={T}", f"-seed={1 + mix(seed, 50 + i) % 2000000000}", "-max_len=64", "-timeout=60", f"-artifact_prefix={art}/", corpus],
+                             out=os.path.join(d, "stats.json"), faildir=d, env=env, own_artifacts=True, art=art))
+        return jobs
+    def collect(jobs, results):
+        out = []
+        for j, rc in results:
+            if "art" in j and any(f.startswith("crash-") for f in os.listdir(j["art"])):
+                f = os.path.join(j["faildir"], "fail_C13.case")
+                note = ""
+                try:
+                    note = open(os.path.join(j["faildir"], "fail_C13.txt")).read()[:300]
+                except OSError:
+                    pass
+                out.append(("libFuzzer: " + (note or "sanitizer report, see stderr.txt"), f if os.path.exists(f) else None))
+        return out
+    base["workers"] = workers
+    base["collect"] = collect
+    base["variants"] = ["exc", "asanexc"]
+    base["bins"] = ["names.exc", "fuzz_names.asanexc"]
+    base["rule"] += " Additionally 4 libFuzzer processes (ASan+UBSan build; corpus = catalogue names and decorated names, or empty) feed raw bytes as the solution string through the same oracle."
+    return base
+
+
+CHECKS["C13"] = _c13_with_fuzzer()
